@@ -59,6 +59,7 @@ type c20BPEFixture struct {
 var (
 	c20bpeOnce sync.Once
 	c20bpeFix  *c20BPEFixture
+	c20bpeFix0 *c20BPEFixture // control token at id 0
 	c20bpeErr  error
 )
 
@@ -144,6 +145,20 @@ func c20LoadBPE() (*c20BPEFixture, error) {
 			fx.corpus = strings.ReplaceAll(string(b), "\x00", "")
 		}
 		c20bpeFix = fx
+		// the same vocabulary in the id layout of the families that keep a control token at id 0 (<unk>, <pad>, <s>
+		// there): "<|begin_of_text|>" and the ordinary token of id 0 change places
+		tokens0, types0 := append([]string(nil), tokens...), append([]uint32(nil), types...)
+		b := tk.specID["<|begin_of_text|>"]
+		tokens0[0], tokens0[b] = tokens0[b], tokens0[0]
+		types0[0], types0[b] = types0[b], types0[0]
+		tk0 := &c20Tok{family: "bpe", specID: map[string]int32{}, specials: tk.specials, hack: tk.hack}
+		for sp, id := range tk.specID {
+			tk0.specID[sp] = id
+		}
+		tk0.specID["<|begin_of_text|>"] = 0
+		v0 := &Vocabulary{Values: tokens0, Types: types0, Merges: merges, BOS: 0, EOS: v.EOS, EOT: v.EOT}
+		tk0.tp, tk0.vocab = NewBytePairEncoding(c20LlamaPre, v0), v0
+		c20bpeFix0 = &c20BPEFixture{tok: tk0, ranks: fx.ranks, pre: fx.pre, corpus: fx.corpus}
 	})
 	return c20bpeFix, c20bpeErr
 }
@@ -880,6 +895,7 @@ type c20Case struct {
 	Specials   []string    `json:"special_literals_in_text,omitempty"`
 	Constructs []string    `json:"known_constructs_in_text,omitempty"`
 	SPM        *c20SPMDesc `json:"spm_vocab,omitempty"`
+	BPELayout  string      `json:"bpe_id_layout,omitempty"`
 }
 
 type c20Viol struct {
@@ -1561,7 +1577,7 @@ func TestVerifC20(t *testing.T) {
 		"special token = token typed CONTROL in the vocabulary; control-token literals are delimiter-shaped (<...>, [...]) so occurrences neither nest nor overlap (true of the llama-3 set and of the synthetic sets)",
 		"SentencePiece vocabularies are synthetic (the pinned gemma2 tokenizer.model is empty): byte tokens are spelled <0xNN> upper-case and typed BYTE; ids 105/106, which Vocabulary.SpecialVocabulary hard-codes as special, are occupied by byte/control/unused/turn tokens as in real layouts, never by an ordinary piece",
 		"every synthetic SentencePiece vocabulary contains the single piece U+2581 (as every trained model does); without it a space falls back to the bytes E2 96 81 and Decode, which maps U+2581 to a space per token, returns the literal U+2581 — noted in notes/C20.md, not explored",
-		"BPE is observed with one vocabulary and one pre-tokenizer expression (the pinned llama-3.2 fixture); the expression itself lives in model/models/* and is an input here",
+		"BPE is observed with one vocabulary (in two id layouts: as pinned, and with a control token at id 0) and one pre-tokenizer expression (the pinned llama-3.2 fixture); the expression itself lives in model/models/* and is an input here",
 		"Encode(s,true) is allowed to add the BOS/EOS literal it was configured to add; nothing else about BOS/EOS placement is demanded",
 	})
 	fx, err := c20LoadBPE()
@@ -1594,8 +1610,13 @@ func TestVerifC20(t *testing.T) {
 		c := &c20Case{Index: i}
 		var tk *c20Tok
 		g := &c20Gen{r: r}
+		fxc := fx
 		if r.Bool() {
-			tk = fx.tok
+			if r.Chance(1, 3) {
+				fxc = c20bpeFix0
+				c.BPELayout = "control token <|begin_of_text|> at id 0"
+			}
+			tk = fxc.tok
 			g.corpus = fx.corpus
 		} else {
 			tk = c20GenSPM(r)
@@ -1639,7 +1660,7 @@ func TestVerifC20(t *testing.T) {
 		rep.Journal([]byte(fmt.Sprintf(`{"index":%d,"family":%q,"class":%q}`, i, c.Family, c.Class)))
 		rep.Eval(1)
 		before := *st
-		viols, ids := c20Check(tk, c, fx, st)
+		viols, ids := c20Check(tk, c, fxc, st)
 		for _, v := range viols {
 			if c.SPM != nil && c.SPM.Values == nil {
 				d := *c.SPM
